@@ -2080,7 +2080,7 @@ def selection_blocks(fn, prov, op, pred, limit=16):
     return None
 
 
-def bool_cond_edges(fn, prov, origin_pred, want):
+def bool_cond_edges(fn, prov, origin_pred, want, no_constant_way=False):
     """Edges of boolean switches whose tested value has an origin accepted by origin_pred(o),
     taken when that origin's value is `want`. Negations (`!x`) met on the way flip the polarity.
     Values matched through helper predicates (crate-local fns) are followed by Prov."""
@@ -2099,6 +2099,13 @@ def bool_cond_edges(fn, prov, origin_pred, want):
         parities = {sum(1 for v in o.via if v[0] == "unop" and v[1] == "Not") % 2 for o in matched}
         if len(parities) != 1:
             continue
+        if no_constant_way:
+            # the tested value can also be a constant that takes the wanted edge by itself (`map_or(true, ..)`, `unwrap_or(true)`):
+            # crossing the edge then says nothing about the matched origin
+            par = next(iter(parities))
+            if any(o.kind == "const" and str(o.key) in ("true", "false") and not origin_pred(o) and
+                   ((str(o.key) == "true") != (sum(1 for v in o.via if v[0] == "unop" and v[1] == "Not") % 2 == 1)) == (want != (par == 1)) for o in origins):
+                continue
         # a conjunction `a && b` lowers to nested switches, each on one operand: fine.
         neg = parities.pop() == 1
         w = (not want) if neg else want
